@@ -84,6 +84,38 @@ def obligations(facts, records=None):
                 out.append(ob("cowrite", key, fn["pat"], "violated", "%s::%s modifies `%s` without modifying `%s` (%s): every other mutator keeps the two in step" % (row["record"], fn["name"], a, b, row["why"]), fn["qname"]))
         if n == 0:
             out.append(ob("cowrite", "%s:%s-with-%s:anchor" % (row["record"], a, b), "", "unrecognised", "no function of %s modifies %s any more (anchor vanished)" % (row["record"], a), ""))
+    for row in sp.get("elements", []):
+        rect = "datasketches::" + row["record"]
+        if records is not None and row["record"] not in records:
+            continue
+        n = 0
+        for pat, fn in sorted(fns.items()):
+            if fn.get("rect") != rect or fn.get("special"):
+                continue
+            hits = []
+
+            def ve(x):
+                if x.get("k") == "Un" and x.get("op") in row["ops"]:
+                    t = strip(x["e"])
+                    base = idx = None
+                    if t.get("k") == "Index":
+                        base, idx = strip(t["b"]), strip_all(t["i"])
+                    elif t.get("k") == "OpCall" and t.get("op") == "[]" and len(t.get("args", [])) == 2:
+                        base, idx = strip(t["args"][0]), strip_all(t["args"][1])
+                    if base is not None and is_this_field(base, (row["field"],)) and idx.get("v") == row["index"]:
+                        hits.append(x)
+            walk(fn["body"], ve)
+            if not hits:
+                continue
+            n += 1
+            W = {f for (o, f) in direct_writes(fn) if o == "this"}
+            key = "%s::%s:%s[%d]%s-with-%s" % (row["record"], fn["name"], row["field"], row["index"], row["ops"][0], row["b"])
+            if row["b"] in W:
+                out.append(ob("cowrite", key, hits[0]["loc"], "discharged", "%s%s[%d] and %s are modified together" % (row["ops"][0], row["field"], row["index"], row["b"]), fn["qname"]))
+            else:
+                out.append(ob("cowrite", key, hits[0]["loc"], "violated", "%s::%s does `%s%s[%d]` without updating `%s`: %s (other callers of this function inherit the stale flag)" % (row["record"], fn["name"], row["ops"][0], row["field"], row["index"], row["b"], row["why"]), fn["qname"]))
+        if n == 0:
+            out.append(ob("cowrite", "%s:%s[%d]:anchor" % (row["record"], row["field"], row["index"]), "", "unrecognised", "no function of %s does %s%s[%d] any more (anchor vanished)" % (row["record"], row["ops"][0], row["field"], row["index"]), ""))
     for row in sp["callers"]:
         rect = "datasketches::" + row["record"]
         if records is not None and row["record"] not in records:
